@@ -2310,8 +2310,9 @@ func (e *CoreExtension) functionMerge(args ...interface{}) (interface{}, error) 
 			}
 		} else {
 			// Use reflection for other map types
+			// (in the fixed key order: two keys may turn into the same string)
 			baseRv := reflect.ValueOf(base)
-			for _, key := range baseRv.MapKeys() {
+			for _, key := range sortedMapKeys(baseRv) {
 				keyStr := toString(key.Interface())
 				result[keyStr] = mapEntry(baseRv, key)
 			}
@@ -2328,7 +2329,7 @@ func (e *CoreExtension) functionMerge(args ...interface{}) (interface{}, error) 
 				// Use reflection for other map types
 				argRv := reflect.ValueOf(arg)
 				if argRv.Kind() == reflect.Map {
-					for _, key := range argRv.MapKeys() {
+					for _, key := range sortedMapKeys(argRv) {
 						keyStr := toString(key.Interface())
 						result[keyStr] = mapEntry(argRv, key)
 					}
